@@ -33,6 +33,8 @@ EXPLANATION = (
   ' (LOOP-break) no loop over the items of a collection is left by a branch that does nothing but `break` on a test about the item (end-of-input sentinels, flags set in the loop body and searches whose variable is read afterwards excepted): an item that is to be skipped does not end the processing of the items after it;'
   ' (PAIR-compute) as in C13: every uncomputed value copied onto the ISD element (animated, specified, initial, direction semantics) is registered for computation on every path through the copy;'
   + common.SHARED_CLAUSES['validators']
+  + " (FIN-position) StyleProcessors.Position.compute, interpreted on sample regions (extents smaller than, equal to and larger than the root container; every edge pair; offsets in %, c and px), sets the origin TTML2 10.2.31 prescribes: the offset runs from the named edge of the container to the same edge of the region, percentages referring to container minus region;"
+  + common.SHARED_CLAUSES['chains']
 )
 RULE_TEXT = "per ordering pair, guard, property x {inherited, initial, applies-to}, _compute_length call site, unit"
 UNDECIDED = ["numeric values (em-of-%-of-c chains, position edge arithmetic, ruby half size)", "tts:disparity applicability (not established from the specification)"]
@@ -411,7 +413,7 @@ def check_unattached(ctx):
 
 
 def run(ctx):
-  common.check_shared_helpers(ctx, validators=True)
+  common.check_shared_helpers(ctx, validators=True, chains=True)
   isdrules.check_style_order(ctx)
   n = isdrules.check_compute_order(ctx)
   ctx.floor("TAB-compute-order", "processors with a compute()", n, 10)
@@ -419,6 +421,7 @@ def run(ctx):
   na = isdrules.check_axes(ctx)
   ctx.floor("AXIS", "_compute_length call sites", na, 12)
   check_units(ctx)
+  check_position(ctx)
   check_ruby_font_size(ctx)
   check_unattached(ctx)
   # the animation step that is active at t decides the value: [begin, end) as in C01
@@ -430,3 +433,73 @@ def run(ctx):
   _c13.check_compute_bookkeeping(ctx)
   shape.check_cache_keys(ctx, common.funcs(ctx, ["ttconv.isd"]))
   common.check_history_independence(ctx, common.CORE)
+
+
+def check_position(ctx):
+  """FIN-position: tts:position resolved into tts:origin.  StyleProcessors.Position.compute is interpreted (rules/minieval.py) on
+  sample regions - extents smaller and larger than the root container, each edge pair, offsets in %, c and px - and the origin it
+  sets is compared with TTML2 10.2.31: the offset is measured from the named edge of the root container to the same edge of the
+  region, and a percentage refers to the space the region leaves (container minus region), so
+      left  o -> x = o                right  o -> x = (100 - W) - o          (o = p/100 * (100 - W) for a percentage p)
+  and likewise for top / bottom with the height."""
+  from fractions import Fraction as F
+  from ..consteval import EnumMember, NotConst as _NC, Raised as _R
+  from ..rules.minieval import MiniEval, Node
+  ix = ctx.ix
+  f = ix.func("ttconv.isd:StyleProcessors.Position.compute")
+  ctx.unit(f.module)
+  sp = ix.mod("ttconv.style_properties")
+  lt = ix.cls("ttconv.style_properties:LengthType")
+  pt = ix.cls("ttconv.style_properties:PositionType")
+  me0 = MiniEval(ix)
+  U = me0._enum_table(lt.nested["Units"], f)
+  HE = me0._enum_table(pt.nested["HEdge"], f)
+  VE = me0._enum_table(pt.nested["VEdge"], f)
+
+  def L(v, u):
+    return {"__record__": "LengthType", "value": v, "units": U[u]}
+  rows, cols, pxw, pxh = 15, 32, 640, 480
+  key = f"{f.qualname}|position and edges resolve into the origin"
+  bad, n = [], 0
+  for (W, H) in ((50, 20), (100, 100), (120, 20)):
+    for (he, ho, hu), (ve, vo, vu) in ((("left", 10, "pct"), ("top", 20, "pct")), (("right", 10, "pct"), ("bottom", 0, "pct")), (("right", 0, "pct"), ("bottom", 25, "pct")),
+                                       (("left", 50, "pct"), ("bottom", 50, "pct")), (("right", 2, "c"), ("bottom", 3, "c")), (("right", 64, "px"), ("top", 48, "px")), (("left", 4, "c"), ("bottom", 96, "px"))):
+      def off(o, u, free, cell, px):
+        return {"pct": F(o, 100) * free, "c": F(o) * F(100, cell), "px": F(o) * F(100, px)}[u]
+      ox = off(ho, hu, 100 - W, cols, pxw)
+      oy = off(vo, vu, 100 - H, rows, pxh)
+      want = (ox if he == "left" else (100 - W) - ox, oy if ve == "top" else (100 - H) - oy)
+      pos = {"__record__": "PositionType", "h_offset": L(ho, hu), "v_offset": L(vo, vu), "h_edge": HE[he], "v_edge": VE[ve]}
+      ext = {"__record__": "ExtentType", "height": L(H, "rh"), "width": L(W, "rw")}
+      doc = Node("ContentDocument", "doc", ())
+      styles_ = {"Position": pos, "Extent": ext}
+      elem = Node("Region", "region", (), doc=doc)
+      methods = {
+        "get_style": lambda n_, p_: styles_.get(getattr(p_, "name", p_)),
+        "set_style": lambda n_, p_, v_: styles_.__setitem__(getattr(p_, "name", p_), v_),
+        "get_doc": lambda n_: doc,
+        "get_cell_resolution": lambda n_: {"__record__": "CellResolutionType", "rows": rows, "columns": cols},
+        "get_px_resolution": lambda n_: {"__record__": "PixelResolutionType", "width": pxw, "height": pxh},
+      }
+      try:
+        MiniEval(ix, node_methods=methods).call(f, [f.cls, None, elem])
+      except _R:
+        bad.append(f"extent {W}x{H}, {he} {ho}{hu} {ve} {vo}{vu}: raises")
+        n += 1
+        continue
+      except _NC as ex_:
+        ctx.undecide("FIN-position", f"{f.qualname}: not in the interpreted subset ({ex_})")
+        return
+      o_ = styles_.get("Origin")
+      try:
+        got = (o_["x"]["value"], o_["y"]["value"])
+        units = (o_["x"]["units"].name, o_["y"]["units"].name)
+      except (TypeError, KeyError, AttributeError):
+        ctx.undecide("FIN-position", f"{f.qualname}: the origin it sets is not a CoordinateType of two lengths the rule reads")
+        return
+      n += 1
+      if units != ("rw", "rh") or any(abs(float(g_) - float(w_)) > 1e-9 for g_, w_ in zip(got, want)):
+        bad.append(f"extent {W}rw x {H}rh, position `{he} {ho}{hu} {ve} {vo}{vu}`: origin ({float(got[0]):g}{units[0]}, {float(got[1]):g}{units[1]}) instead of ({float(want[0]):g}rw, {float(want[1]):g}rh)")
+  ctx.check(not bad, "FIN-position", key, ctx.where(f.module, f.node), f"interpreted on {n} (extent, position) samples",
+            "Position.compute, interpreted on sample regions: " + "; ".join(bad[:4]) + (f" (+{len(bad) - 4} more)" if len(bad) > 4 else "") +
+            " - the region is placed elsewhere than tts:position says (TTML2 10.2.31: offsets run from the named edge of the container to the same edge of the region; percentages refer to container minus region)")
